@@ -132,6 +132,9 @@ class SymDict:
     def vc_havoc(self, eng, name):
         return SymDict(self.levels, self.vtype, name=name)
 
+    def vc_havoc_inplace(self, eng, name):
+        self.store = SymDict(self.levels, self.vtype, name=name).store
+
     def vc_snapshot(self):
         return SymDict(self.levels, self.vtype, _Store(self.store.present, self.store.value), self.prefix, self.name)
 
